@@ -18,7 +18,7 @@ func init() {
 			"R2 every type switch / constant switch in the consumers and in the parser whose fall-through panics covers every concrete type / constant that can flow to the switched value (residual-set dataflow); walkInternal has a case for every node struct (C17/R1). " +
 			"R3 every index / slice expression in the consumer files is dominated by a length test that covers it, and nodeSliceIndex is only called with index 0. " +
 			"Decides: nil-safety and switch exhaustiveness of SQL/Pos/End/Walk on every tree the parser can build, including error-recovered ones. Does not decide: trees built by users by hand.",
-		Rules: []ruleFn{ruleC04R1, ruleC04R2, ruleC04R3, ruleC17R1, ruleC17R2},
+		Rules: []ruleFn{ruleC04R1, ruleC04R2, ruleC04R3, ruleC17R1, ruleC17R2, ruleC15R5},
 	})
 }
 
